@@ -796,3 +796,273 @@ Definition lgrid_spec (g : list (list lcell)) : list (list val) :=
   end.
 Fixpoint nodup_str (l : list str) : bool :=
   match l with [] => true | x :: r => negb (mem_str x r) && nodup_str r end.
+
+(* ------------------------------------------------------------------ RTF
+   ms_legacy/rtf_extractor.py: _extract_tables, _save_table, _extract_table_cells,
+   _strip_rtf_simple, _remove_ignorable_groups, _repair_surrogates and the regexes they use, as
+   hand-written matchers.  Oracles: is_ws (regex \s, str.strip), is_word (regex \w, for \b).
+   Assumptions on the decoded text (stated in the check's trusted list): digits after \u and after
+   control words are ASCII digits, and the text has no code point that case-folds into ASCII or
+   changes length under str.lower() (U+0130, U+0131, U+017F, U+212A). *)
+Definition BS : N := 92.
+Definition LBR : N := 123.
+Definition RBR : N := 125.
+
+(* a matcher looks at the text from the current position and answers (replacement, consumed >= 1) *)
+Definition matcher := str -> option (str * nat).
+
+(* re.sub(pattern, repl, x) for patterns that never match the empty string: leftmost,
+   non-overlapping; `skip` = characters of the current match still to drop *)
+Fixpoint re_sub (m : matcher) (skip : nat) (x : str) : str :=
+  match x with
+  | [] => []
+  | c :: r =>
+      match skip with
+      | S k => re_sub m k r
+      | O => match m x with
+             | Some (rep, n) => rep ++ re_sub m (pred n) r
+             | None => c :: re_sub m O r
+             end
+      end
+  end.
+
+(* [(m.start(), m.end()) for m in pattern.finditer(x)] *)
+Fixpoint re_find_all (m : matcher) (skip : nat) (off : nat) (x : str) : list (nat * nat) :=
+  match x with
+  | [] => []
+  | c :: r =>
+      match skip with
+      | S k => re_find_all m k (S off) r
+      | O => match m x with
+             | Some (_, n) => (off, (off + n)%nat) :: re_find_all m (pred n) (S off) r
+             | None => re_find_all m O (S off) r
+             end
+      end
+  end.
+
+(* re.split(pattern, x) (no capture groups); cur = current part, reversed *)
+Fixpoint re_split (m : matcher) (skip : nat) (cur : str) (x : str) : list str :=
+  match x with
+  | [] => [rev cur]
+  | c :: r =>
+      match skip with
+      | S k => re_split m k cur r
+      | O => match m x with
+             | Some (_, n) => rev cur :: re_split m (pred n) [] r
+             | None => re_split m O (c :: cur) r
+             end
+      end
+  end.
+
+Definition is_digit (c : N) : bool := (48 <=? c) && (c <=? 57).
+Definition is_alpha (c : N) : bool := ((65 <=? c) && (c <=? 90)) || ((97 <=? c) && (c <=? 122)).
+Definition is_hex (c : N) : bool := is_digit c || ((65 <=? c) && (c <=? 70)) || ((97 <=? c) && (c <=? 102)).
+Definition hex_val (c : N) : N := if is_digit c then c - 48 else if c <=? 70 then c - 55 else c - 87.
+
+(* length of the longest prefix whose characters satisfy p *)
+Fixpoint span_len (p : N -> bool) (x : str) : nat :=
+  match x with c :: r => if p c then S (span_len p r) else O | [] => O end.
+
+(* \\kw\b *)
+Definition m_word_b (is_word : N -> bool) (kw : str) : matcher := fun x =>
+  match x with
+  | c :: r => if (c =? BS) && startswith r kw
+                 && match skipn (length kw) r with [] => true | d :: _ => negb (is_word d) end
+              then Some ([], S (length kw)) else None
+  | [] => None
+  end.
+
+Fixpoint dec_val (acc : Z) (x : str) : Z :=
+  match x with c :: r => if is_digit c then dec_val (acc * 10 + Z.of_N (c - 48)) r else acc | [] => acc end.
+
+(* _RE_UNICODE = \\u(-?\d+)\??   ->  chr(int(group 1) & 0xFFFF) *)
+Definition m_unicode : matcher := fun x =>
+  match x with
+  | b :: u :: r =>
+      if (b =? BS) && (u =? 117) then
+        let neg := match r with c :: _ => c =? 45 | [] => false end in
+        let r' := if neg then tl r else r in
+        let nd := span_len is_digit r' in
+        match nd with
+        | O => None
+        | _ => let v := dec_val 0 r' in
+               let v' := if neg then (- v)%Z else v in
+               let q := match skipn nd r' with c :: _ => c =? 63 | [] => false end in
+               Some ([Z.to_N (v' mod 65536)], (2 + (if neg then 1 else 0) + nd + (if q then 1 else 0))%nat)
+        end
+      else None
+  | _ => None
+  end.
+
+(* _repair_surrogates: join high+low pairs, replace lone surrogates by U+FFFD *)
+Definition is_high (c : N) : bool := (55296 <=? c) && (c <=? 56319).
+Definition is_low (c : N) : bool := (56320 <=? c) && (c <=? 57343).
+Definition m_surrogate : matcher := fun x =>
+  match x with
+  | h :: r =>
+      if is_high h then
+        match r with
+        | l :: _ => if is_low l then Some ([65536 + (h - 55296) * 1024 + (l - 56320)], 2%nat) else Some ([65533], 1%nat)
+        | [] => Some ([65533], 1%nat)
+        end
+      else if is_low h then Some ([65533], 1%nat) else None
+  | [] => None
+  end.
+
+(* _RE_HEX_ESCAPE = \\'([0-9a-fA-F]{2}) -> chr(int(.., 16)) *)
+Definition m_hex_escape : matcher := fun x =>
+  match x with
+  | b :: q :: h1 :: h2 :: _ =>
+      if (b =? BS) && (q =? 39) && is_hex h1 && is_hex h2 then Some ([16 * hex_val h1 + hex_val h2], 4%nat) else None
+  | _ => None
+  end.
+
+(* \\ + re.escape(keyword) + (?:(?:\s+)|(?=\\)|(?=\{)|(?=\})|$)  ->  char *)
+Definition m_special (is_ws : N -> bool) (kw : str) (ch : N) : matcher := fun x =>
+  match x with
+  | c :: r =>
+      if (c =? BS) && startswith r kw then
+        let rest := skipn (length kw) r in
+        let nws := span_len is_ws rest in
+        match nws with
+        | S _ => Some ([ch], (S (length kw) + nws)%nat)
+        | O => match rest with
+               | [] => Some ([ch], S (length kw))
+               | d :: _ => if (d =? BS) || (d =? LBR) || (d =? RBR) then Some ([ch], S (length kw)) else None
+               end
+        end
+      else None
+  | [] => None
+  end.
+
+(* _RE_CONTROL_WORD = \\[a-z]+(-?\d+)?\s?  (IGNORECASE) -> "" *)
+Definition m_control (is_ws : N -> bool) : matcher := fun x =>
+  match x with
+  | c :: r =>
+      if c =? BS then
+        let na := span_len is_alpha r in
+        match na with
+        | O => None
+        | _ =>
+            let r1 := skipn na r in
+            let neg := match r1 with d :: _ => d =? 45 | [] => false end in
+            let r2 := if neg then tl r1 else r1 in
+            let nd := span_len is_digit r2 in
+            let numlen := match nd with O => O | _ => ((if neg then 1 else 0) + nd)%nat end in
+            let r3 := skipn numlen r1 in
+            let w := match r3 with d :: _ => is_ws d | [] => false end in
+            Some ([], (1 + na + numlen + (if w then 1 else 0))%nat)
+        end
+      else None
+  | [] => None
+  end.
+
+(* a maximal run of characters satisfying p, of length >= lo, replaced by rep *)
+Definition m_run (p : N -> bool) (lo : nat) (rep : str) : matcher := fun x =>
+  let n := span_len p x in if Nat.leb lo n && Nat.leb 1 n then Some (rep, n) else None.
+
+(* _RE_CELL_NEWLINE = " *\n *" -> "\n" *)
+Definition m_cell_newline : matcher := fun x =>
+  let a := span_len (N.eqb 32) x in
+  match skipn a x with
+  | c :: r => if c =? 10 then Some (NL, (a + 1 + span_len (N.eqb 32) r)%nat) else None
+  | [] => None
+  end.
+
+(* _remove_ignorable_groups; d = brace depth inside the group being removed (0 = not removing) *)
+Definition starts_ignorable (x : str) : bool :=
+  let l := ascii_lower (firstn 8 x) in
+  startswith l (s "{\pict") || startswith l (s "{\object") || startswith l (s "{\*").
+Fixpoint remove_ignorable (d : nat) (x : str) : str :=
+  match x with
+  | [] => []
+  | c :: r =>
+      match d with
+      | O => if (c =? LBR) && starts_ignorable x then remove_ignorable 1 r else c :: remove_ignorable O r
+      | S k => if c =? LBR then remove_ignorable (S d) r
+               else if c =? RBR then remove_ignorable k r else remove_ignorable d r
+      end
+  end.
+
+(* SPECIAL_CHARS in dict order (generated copy in Gen/C13Tables.v; Inst.v decides equality) *)
+Definition RTF_SPECIAL_CHARS : list (str * N) :=
+  [(s "par", 10); (s "line", 10); (s "tab", 9); (s "cell", 9); (s "row", 10); (s "sect", 10);
+   (s "lquote", 39); (s "rquote", 39); (s "ldblquote", 34); (s "rdblquote", 34); (s "bullet", 8226);
+   (s "endash", 8211); (s "emdash", 8212); (s "~", 160); (s "_", 173); (s "-", 173);
+   (s "enspace", 8194); (s "emspace", 8195); (s "qmspace", 8197)].
+
+Definition is_sp_tab (c : N) : bool := (c =? 32) || (c =? 9).
+Definition is_nl (c : N) : bool := c =? 10.
+Definition is_brace (c : N) : bool := (c =? LBR) || (c =? RBR).
+
+(* _strip_rtf_simple *)
+Definition rtf_strip_simple (is_ws : N -> bool) (x : str) : str :=
+  let r := remove_ignorable 0 x in
+  let r := re_sub m_unicode 0 r in
+  let r := re_sub m_surrogate 0 r in
+  let r := re_sub m_hex_escape 0 r in
+  let r := fold_left (fun acc kc => re_sub (m_special is_ws (fst kc) (snd kc)) 0 acc) RTF_SPECIAL_CHARS r in
+  let r := re_sub (m_control is_ws) 0 r in
+  let r := filter (fun c => negb (is_brace c)) r in
+  let r := re_sub (m_run is_sp_tab 1 [32]) 0 r in
+  let r := re_sub (m_run is_nl 3 [10; 10]) 0 r in
+  strip is_ws r.
+
+Definition is_cell_space (c : N) : bool := (c =? 32) || (c =? 9) || (c =? 12) || (c =? 11).
+
+(* the body of the loop of _extract_table_cells *)
+Definition rtf_cell_text (is_ws : N -> bool) (part : str) : str :=
+  let t := rtf_strip_simple is_ws part in
+  let t := re_sub (m_run is_hex 64 []) 0 t in
+  let t := re_sub (m_run is_cell_space 1 [32]) 0 t in
+  let t := re_sub m_cell_newline 0 t in
+  let t := re_sub (m_run is_nl 3 [10; 10]) 0 t in
+  strip is_ws t.
+
+(* _extract_table_cells: re.split(r"\\cell\b", row)[:-1] *)
+Definition rtf_row_cells (is_ws is_word : N -> bool) (row : str) : list str :=
+  map (rtf_cell_text is_ws) (removelast (re_split (m_word_b is_word (s "cell")) 0 [] row)).
+
+Definition slice (x : str) (a b : nat) : str := firstn (b - a) (skipn a x).
+
+(* table_rows: every \trowd start paired with the first \row end after it *)
+Definition rtf_table_rows (is_word : N -> bool) (text : str) : list (nat * nat * str) :=
+  let trowd := map fst (re_find_all (m_word_b is_word (s "trowd")) 0 0 text) in
+  let rows := map snd (re_find_all (m_word_b is_word (s "row")) 0 0 text) in
+  flat_map (fun tp => match List.find (fun rp => Nat.ltb tp rp) rows with
+                      | Some rp => [(tp, rp, slice text tp rp)]
+                      | None => [] end) trowd.
+
+(* _save_table: pad every row with "" to the widest row *)
+Definition rtf_pad_rows (rows : list (list str)) : list (list str) :=
+  let w := max_len rows in map (fun r => r ++ repeat_list [] (w - length r)) rows.
+
+(* grouping loop of _extract_tables; state = (saved tables reversed, current rows reversed, last_end) *)
+Definition rtf_group_step (is_ws is_word : N -> bool) (text : str)
+           (st : list (list (list str)) * list (list str) * Z) (row : nat * nat * str)
+  : list (list (list str)) * list (list str) * Z :=
+  let '(saved, cur, last_end) := st in
+  let '(rs, re, content) := row in
+  let brk :=
+    negb (is_nil cur) && (100 <? Z.of_nat rs - last_end)%Z
+    && Nat.ltb 20 (length (strip is_ws (rtf_strip_simple is_ws (slice text (Z.to_nat last_end) rs)))) in
+  let '(saved, cur) := if brk then (rtf_pad_rows (rev cur) :: saved, []) else (saved, cur) in
+  let cells := rtf_row_cells is_ws is_word content in
+  (saved, (if is_nil cells then cur else cells :: cur), Z.of_nat re).
+
+(* self.tables after _extract_tables(text) (the data of each RtfTable) *)
+Definition rtf_tables (is_ws is_word : N -> bool) (text : str) : list (list (list str)) :=
+  let '(saved, cur, _) := fold_left (rtf_group_step is_ws is_word text) (rtf_table_rows is_word text) ([], [], (-1)%Z) in
+  rev (if is_nil cur then saved else rtf_pad_rows (rev cur) :: saved).
+
+(* rendering: a document is a list of paragraphs and tables; cells are plain text *)
+Inductive rblock := RPara (t : str) | RTable (g : list (list str)).
+Definition rtf_r_row (cells : list str) : str :=
+  s "\trowd" ++ concat (map (fun t => SP :: t ++ s "\cell") cells) ++ s "\row" ++ NL.
+Definition rtf_r_block (b : rblock) : str :=
+  match b with
+  | RPara t => s "\pard " ++ t ++ s "\par" ++ NL
+  | RTable g => concat (map rtf_r_row g)
+  end.
+Definition rtf_r_doc (d : list rblock) : str :=
+  s "{\rtf1\ansi " ++ concat (map rtf_r_block d) ++ s "}".
